@@ -160,6 +160,22 @@ var checks = []Check{
 		Assumptions: []string{"TLC is the reference evaluator of the spec's Next; values are printed by an independent TLA+ printer (verif/tlc.Render)", "pairs not wired yet are listed in DESIGN.md; only wired pairs are claimed"},
 		MustProbe:   []string{"system_locksvc"}, MinRunsForProbes: 500,
 	},
+	{
+		ID: "C08", Pkg: "checks/c08", Instr: coreInstr,
+		QuickRuns: 20000, ThoroughRuns: 1000000, QuickBudgetS: 60, ThoroughBudgetS: 1500, ShrinkS: 60,
+		Rule: "one run = the generated Raft KV system of systems/raftkvs/raftkvs.go in the spec world: 1-5 servers x 5 archetypes, 1-3 clients issuing 1-6 Put/Get operations each (unique Put values, 1-2 keys), optionally the spec's crashers for a minority (ExploreFail), network buffer 2-6, per-link FIFO delivery with any interleaving of links, every LeaderTimeout/ClientTimeout/UnreliableFD read a biased stream coin, the stream picks which archetype takes its next label; after every committed step the spec's ElectionSafety, LogMatching, LeaderCompleteness, StateMachineSafety, ApplyLogOK and (against the previous state) LeaderAppendOnly are evaluated, plus terms and commit indices never decrease and no assertion fails; non-trivial = at least 50 spec steps and 2 servers; distinct = distinct interleaving digests",
+		Real: realA, Stub: stubA,
+		Assumptions: []string{"invariants are transcribed from raftkvs.tla into Go predicates (C02 checks the steps against the spec itself)", "level B (bootstrap over the simulated network) is not part of this check yet"},
+		MustProbe:   []string{"two_or_more_elections", "server_crashed", "log_truncated", "client_ops_recorded"}, MinRunsForProbes: 1000,
+	},
+	{
+		ID: "C09", Pkg: "checks/c09", Instr: coreInstr,
+		QuickRuns: 20000, ThoroughRuns: 1000000, QuickBudgetS: 60, ThoroughBudgetS: 1500, ShrinkS: 60,
+		Rule: "one run = the same level-A Raft execution as C08; the history of client operations (invoke when the request leaves reqCh, return when the response reaches respCh, stamped with event sequence numbers; unanswered Puts pending for ever, unanswered Gets dropped) is checked with porcupine against a key-value map partitioned by key; non-trivial = at least 2 answered operations; distinct = distinct interleaving digests",
+		Real: realA, Stub: stubA,
+		Assumptions: []string{"porcupine time-outs counted as inconclusive", "<= 18 operations per history"},
+		MustProbe:   []string{"client_ops_recorded", "two_or_more_elections"}, MinRunsForProbes: 1000,
+	},
 }
 
 func findCheck(id string) *Check {
